@@ -6,6 +6,8 @@
            <ncalls> { x[n] b[n] }^ncalls
        -> <cid> OUT <k> x'...        per call (scratch threaded from call to call, starting fresh)
           <cid> PSN <k> x'...        the same call on a hierarchy whose scratch is poisoned with 1e30
+     <cid> stg  (same hierarchy)  x[n] b[n] { b_l[n_l] x_l[n_l] }^(levels 1..)   the library's level vectors after the cycle
+       -> <cid> STGX l x...   what level l returns given the library's coarse correction;  <cid> STGB l+1 b...  what it restricts
      <cid> slv  (same hierarchy)  <tol> <maxit> <ztol_flag> x[n] b[n]
        -> <cid> IT <iters>  /  <cid> RES r0 r1 ...  (squared relative residuals)  /  <cid> X x...  *)
 open Model
@@ -64,6 +66,30 @@ let run_case cid (t : toks) =
           let y = q_cycle_x h (q_poison_scratch sentinel h.ch_levels h.ch_coarse) x b in
           Printf.printf "%s PSN %d %s\n" cid k (qs_str y)) calls
     end
+  | "stg" ->
+    (* stage-wise: every level's part of the cycle is recomputed from the implementation's own level inputs
+       (x = 0, b = levels[l]->b as the library left it) and the library's own coarse-grid correction levels[l+1]->x *)
+    let (h, n) = read_hier t in
+    let x = next_qs t n in let b = next_qs t n in
+    let sizes = List.map (fun c -> List.length c.cl_A) h.ch_levels @ [List.length h.ch_coarse] in
+    let lower = List.map (fun nl -> let bl = next_qs t nl in let xl = next_qs t nl in (bl, xl)) (List.tl sizes) in
+    let z = q_of_int 0 in
+    let zs k = List.init k (fun _ -> z) in
+    let rec go l (cs : qc clevel list) (xin, bin) lower =
+      match cs, lower with
+      | c :: rest, (bl', xl') :: lower' ->
+        let nc = int_of_nat (next_n rest h.ch_coarse) and cparts = next_parts rest h.ch_cparts in
+        let lev = mk_level z (q_of_int 1) qcplus qcmult qcminus qcinv qc_tiny h c (nat_of_int nc) cparts in
+        let scr = { s_tmp = zs (List.length c.cl_A); s_xc = zs nc; s_bc = zs nc } in
+        let ((x3, _), ss) = cycle z (fun _ _ -> xl') [lev] [scr] xin bin in
+        Printf.printf "%s STGX %d %s\n" cid l (qs_str x3);
+        Printf.printf "%s STGB %d %s\n" cid (l + 1) (qs_str (List.hd ss).s_bc);
+        go (l + 1) rest (zs nc, bl') lower'
+      | [], [] ->
+        if coarse_singular h then Printf.printf "%s SINGULAR\n" cid
+        else Printf.printf "%s STGX %d %s\n" cid l (qs_str (q_c_coarse h.ch_trans h.ch_coarse xin bin))
+      | _ -> failwith "stg: level count"
+    in go 0 h.ch_levels (x, b) lower
   | _ -> Printf.printf "%s UNSUPPORTED %s\n" cid op
 
 let () =
